@@ -24,6 +24,8 @@ pub fn cf_profile(t: &mut Tape) -> Profile {
     if t.chance(80) {
         // a variant with signals / more operators for variety
         p.signals = template;
+        p.nested_signal_decls = template && t.chance(170);
+        p.nested_signal_assign = true;
         p.ops = crate::gen::prog::OpsLevel::Arith;
     }
     if t.chance(60) {
